@@ -20,7 +20,18 @@ pub fn check(cx: &Cx, rep: &mut Report) {
         match decl.mailbox {
             Some(n) => {
                 // R1: walk the event sequence
-                let send_ret: HashMap<u64, u64> = sends.iter().filter(|o| matches!(o.res, Some(Res::Ok))).filter_map(|o| o.e.map(|e| (e, o.msg))).collect();
+                // a message submitted after a stop request had begun sits behind that request: it will never be handled,
+                // and when the actor throws it away (with the mailbox at the very end, or as soon as it has left its
+                // message loop) is not observable and not the property's business - such sends are not counted
+                let stop_b = ix
+                    .ops
+                    .iter()
+                    .filter(|o| o.tag == af.tag && o.executed() && matches!(o.op, OpK::Stop | OpK::Halt | OpK::Consume | OpK::ConsumeSync) && !matches!(o.res, Some(Res::Err(_)) | Some(Res::Skipped)))
+                    .map(|o| o.b)
+                    .chain(ix.ev.iter().filter(|e| matches!(&e.k, K::Effect { actor, what, arg, .. } if (*actor == af.task && *what == "ctx_stop.begin") || (*what == "reap_begin" && *arg == af.tag as u64))).map(|e| e.stamp))
+                    .min()
+                    .unwrap_or(u64::MAX);
+                let send_ret: HashMap<u64, u64> = sends.iter().filter(|o| matches!(o.res, Some(Res::Ok)) && o.b < stop_b).filter_map(|o| o.e.map(|e| (e, o.msg))).collect();
                 let mine: HashSet<u64> = sends.iter().map(|o| o.msg).collect();
                 // nothing is dequeued once the loop has left for the terminating stopped(): sends parked in flush
                 // then resolve Ok without ever being taken out (futures mpsc), which is "the actor terminates"
